@@ -158,6 +158,53 @@ def percpu_instances_workload(res, rng):
             ld.close()
 
 
+def closed_program_workload(res, rng):
+    """a program with a per-CPU map is loaded, run and closed (as XDP.run()
+    and register_sync_group do right after attaching); another program with
+    a larger per-CPU map is created afterwards; then the first program's
+    map is read again - with the buffer of its own map"""
+    with kern.session() as sess:
+        def make(nvars, tag):
+            pm = PerCPUArrayMap()
+            ns = {"license": "GPL", "pm": pm, "c": pm.globalVar("I")}
+            for i in range(nvars):
+                ns[f"v{i}"] = pm.globalVar("Q")
+
+            def program(self):
+                self.c += 1
+                self.r0 = 2
+                self.exit()
+            ns["program"] = program
+            return type("VfClosed" + tag, (XDP,), ns)()
+        with sysmon.Monitor(sess) as mon:
+            first = make(rng.randint(0, 2), "A")
+            ld1 = prog.Loaded(first, sess)
+            ld1.load()
+            ld1.run_k(bytes(64))
+            first.pm.read()
+            before = sum(first.c)
+            first.close()
+            second = make(rng.randint(6, 12), "B")
+            ld2 = prog.Loaded(second, sess)
+            ld2.load()
+            ld2.run_k(bytes(64))
+            try:
+                first.pm.read()
+                after = sum(first.c)
+            except sysmon.Refused:
+                after = None
+            second.pm.read()
+        res.count("reads_of_a_closed_program's_map")
+        absorb(mon, res, "closed-program")
+        if after is not None and after != before:
+            res.violation("unexplained:closed-program-map-read",
+                          f"the per-CPU counter of a closed program read "
+                          f"{after} (was {before}, nothing ran since)",
+                          case=dict(workload="closed-program"))
+        ld1.close()
+        ld2.close()
+
+
 def misuse_workload(res, rng):
     """calls the API may refuse but must never pass on with short buffers:
     Dict operations with objects of a base structure class instead of the
@@ -241,16 +288,35 @@ def run_shard(params):
         return res
     rng = random.Random(params["seed"] * 100129 + params["shard"])
     scratch = Result()
+    def monitored(fn, case, what):
+        sysmon.Monitor.current = None
+        try:
+            absorb(fn(case, scratch, monitor=True), res, what)
+        except OSError as ex:
+            # a call the monitor refused (or another failure of the code
+            # under test): report what the monitor saw until then
+            mon = sysmon.Monitor.current
+            if mon is None or not mon.violations:
+                # the workload failed for a reason that is not a buffer
+                # matter (C09 judges the workload itself)
+                res.count("workloads_ended_by_an_os_error (C09's business)")
+                if mon is not None:
+                    mon.__exit__()
+                    absorb(mon, res, what)
+                return
+            mon.__exit__()
+            res.count("workloads_ended_by_a_refused_call")
+            absorb(mon, res, what)
     for i in range(params["nh"]):
-        absorb(c09.check_hash(c09.gen_hash_case(rng), scratch, monitor=True),
-               res, "hash")
+        monitored(c09.check_hash, c09.gen_hash_case(rng), "hash")
     for i in range(params["nd"]):
-        absorb(c09.check_dict(c09.gen_dict_case(rng), scratch, monitor=True),
-               res, "dict")
+        monitored(c09.check_dict, c09.gen_dict_case(rng), "dict")
     percpu_workload(res, rng)
     for _ in range(3):
         percpu_instances_workload(res, rng)
     misuse_workload(res, rng)
+    for _ in range(3):
+        closed_program_workload(res, rng)
     res.count("workload_model_mismatches (C09's business)",
               len(scratch.violations))
     return res
